@@ -249,8 +249,9 @@ def _reversed(E, s, args, kw):
 def _allany(which):
     def f(E, s, args, kw):
         (v,) = args
-        if isinstance(v, GenVal):
-            raise Unsupported(f"{which}() over a symbolic generator (needs a model)")
+        if isinstance(v, SymComp):
+            t = v.quantified(which, s)
+            return ok(s, mk_bool(t))
         items = E.iter_concrete(s, v)
         terms = [bool_term(truth(x, s)) for x in items]
         if not terms:
@@ -1123,7 +1124,8 @@ def comprehension(E, st, node, kind):
     g = node.generators[0]
 
     def k(s, it):
-        if isinstance(it, (TokList, HistList)) or isinstance(it, GenVal):
+        symbolic_seq = isinstance(it, Ref) and isinstance(s.cell(it), ObjCell) and s.cell(it).cls in E.seq_models
+        if isinstance(it, (TokList, HistList)) or isinstance(it, GenVal) or symbolic_seq:
             env = dict(s.frames[-1].get("__closure__", {}))
             env.update({k_: v for k_, v in s.frames[-1].items() if k_ != "__closure__"})
             gv = GenVal(node, env, E.current_func[-1] if E.current_func else None)
@@ -1197,7 +1199,7 @@ class SymComp(Sym):
         n, elem = seq_length_and_elem(E, st, self.seq)
         K = z3.Int(fresh_name("k"))
         env = dict(self.gen.env)
-        env[g.target.id] = elem(K)
+        env[g.target.id] = elem(K, st)
         env["__noframe__"] = True
         conds = [E.spec_formula(st, c, env) for c in g.ifs]
         if item is not None:
@@ -1207,6 +1209,24 @@ class SymComp(Sym):
             ast.fix_missing_locations(ast.copy_location(cmp_, node.elt))
             conds.append(E.spec_formula(st, cmp_, env2))
         return z3.Exists([K], z3.And(K >= 0, K < n, *conds))
+
+    def quantified(self, which, st):
+        """any(comp) / all(comp)"""
+        from .loops import seq_length_and_elem
+        E = self.engine
+        node = self.gen.node
+        g = node.generators[0]
+        n, elem = seq_length_and_elem(E, st, self.seq)
+        K = z3.Int(fresh_name("k"))
+        env = dict(self.gen.env)
+        env[g.target.id] = elem(K, st)
+        env["__noframe__"] = True
+        conds = [E.spec_formula(st, c, env) for c in g.ifs]
+        body = E.spec_formula(st, node.elt, env)
+        rng = z3.And(K >= 0, K < n, *conds)
+        if which == "any":
+            return z3.Exists([K], z3.And(rng, body))
+        return z3.ForAll([K], z3.Implies(rng, body))
 
 
 def exec_with(E, stmt, st):
